@@ -68,6 +68,7 @@ return {seen: seen.join(";"), n: (_.bindings.n || 0) + 1};
 var polluters = []struct{ Name, Src string }{
 	{"bindings-deep-mutation", `var b=_.bindings; if (b.deep) { b.deep.l1.l2.l3 = "polluted"; b.deep.l1.arr.push(99); b.deep.l1.arr[0] = "changed"; delete b.deep.l1.l2; } b.added = 1; delete b.x; if (b.arr) { b.arr[0] = 99; b.arr.push({z:1}); } return b;`},
 	{"bindings-reassign", `_.bindings = {hijacked:true}; return {};`},
+	{"permanent-bindings-mutated-below", `var b = _.bindings; if (b["cfg!"]) { b["cfg!"].limits.max = 99; b["cfg!"].hops[0].w = 99; b["cfg!"].hops.push({w: 2}); delete b["cfg!"].limits; } return b;`},
 	{"props-replace-add-delete", `_.props.replaced = 1; _.props.q = "overwritten"; delete _.props.p; return _.bindings;`},
 	{"props-nested-mutation", `if (_.props.nested) { _.props.nested.k = "polluted"; _.props.nested.added = [1]; if (_.props.nested.inner) { _.props.nested.inner.deep = "polluted"; } } return _.bindings;`},
 	{"props-list-mutation", `if (_.props.list) { _.props.list[0] = "polluted"; if (_.props.list[1]) { _.props.list[1].m = "polluted"; } } return _.bindings;`},
@@ -105,7 +106,10 @@ func mkBindings() match.Bindings {
 // bindingsVariant: caller bindings of several shapes (the deep one above; flat
 // with arrays only; arrays of arrays / of objects; Go-typed numbers).
 func bindingsVariant(k int) match.Bindings {
-	switch k % 9 {
+	switch k % 10 {
+	case 9:
+		// permanent bindings ("!") with structure below them
+		return match.Bindings{"cfg!": map[string]interface{}{"limits": map[string]interface{}{"max": 1.0}, "hops": []interface{}{map[string]interface{}{"w": 1.0}}}, "name!": "keep", "arr": []interface{}{1.0, map[string]interface{}{"three": 3.0}}, "x": 1.0}
 	case 7:
 		// numbers that are not JSON (left by arithmetic in native code): the bindings cannot
 		// be copied for the script, which must not mean that the script gets the originals
@@ -209,7 +213,7 @@ func (e *exec) run(rec *fw.Rec, name string, bs match.Bindings, props core.StepP
 }
 
 func Run(cfg fw.Config, rec *fw.Rec) {
-	rec.Rule = "21 polluting scripts (in-place mutation of _.bindings at depth 1-4, of _.props incl. nested maps and lists and Go-typed containers (map[string]string, []string, []map[string]interface{}), globals with and without var, Object/Array prototype and JSON/Math/Object.keys patches, replaced environment members, environment members reached by enumeration / computed keys / escaped identifiers, pollution followed by a throw) run (on caller bindings of 9 shapes: nested objects, flat with arrays only, arrays of arrays / objects, Go-typed numbers, Go-typed containers such as []string and map[string]string, nested NaN / infinite numbers) in sequences of length 1-5 before a probe script that reports everything observable (globals, prototypes, built-ins, environment keys, props, bindings); the probe's report must equal its report in a clean run; a self-probe pollutes and reports leftovers of its own earlier executions; the caller's bindings and props are deep-snapshotted around every execution (also through Spec.Step); a tally script run with absent and with empty step properties must find _.props empty every time (sequentially, after every polluter, from 32 goroutines); 16-64 goroutines run one compiled source concurrently (race detector on); non-trivial = polluter sequence followed by a clean probe; distinct by sequence"
+	rec.Rule = "22 polluting scripts (in-place mutation of _.bindings at depth 1-4, of _.props incl. nested maps and lists and Go-typed containers (map[string]string, []string, []map[string]interface{}), globals with and without var, Object/Array prototype and JSON/Math/Object.keys patches, replaced environment members, environment members reached by enumeration / computed keys / escaped identifiers, pollution followed by a throw) run (on caller bindings of 10 shapes: nested objects, flat with arrays only, arrays of arrays / objects, Go-typed numbers, Go-typed containers such as []string and map[string]string, nested NaN / infinite numbers, structured permanent ('!') bindings) in sequences of length 1-5 before a probe script that reports everything observable (globals, prototypes, built-ins, environment keys, props, bindings); the probe's report must equal its report in a clean run; a self-probe pollutes and reports leftovers of its own earlier executions; the caller's bindings and props are deep-snapshotted around every execution (also through Spec.Step); a tally script run with absent and with empty step properties must find _.props empty every time (sequentially, after every polluter, from 32 goroutines); 16-64 goroutines run one compiled source concurrently (race detector on); non-trivial = polluter sequence followed by a clean probe; distinct by sequence"
 	rec.Required = []string{"probe_after_polluters_clean", "self_probe_clean", "concurrent_rounds", "step_props_intact", "snapshots_intact", "absent_or_empty_props_private_per_execution"}
 	rec.Assume = []string{"the race detector reports only races that occur in the interleavings produced", "probe observability: what the probe script can enumerate (globals by name, prototypes, built-ins used by the DSL, environment keys, props, bindings)"}
 	e := newExec(rec)
